@@ -189,8 +189,15 @@ def variants(rng, sysi, s):
     out = []
     head, sep, tail = s.partition(b"+")
     core, dash, pre = head.partition(b"-")
-    k = rng.randrange(6)
-    if k == 0:
+    k = rng.randrange(7)
+    if k == 6:
+        # the core extended by zero components and then a non-zero one (two different tails): equal
+        # prefixes of different lengths must still be told apart by a later component
+        z = rng.choice([b".0", b".0.0", b".00", b".0.0.0"])
+        for d in rng.sample([b"1", b"2", b"3", b"10"], 2):
+            out.append(core + z + b"." + d + dash + pre + sep + tail)
+        out.append(core + z + dash + pre + sep + tail)
+    elif k == 0:
         out.append(core + rng.choice([b".0", b".00", b".0.0"]) + dash + pre + sep + tail)
     elif k == 1:
         out.append(s + rng.choice([b".0", b".00", b"-0", b".1"]))
@@ -206,10 +213,10 @@ def variants(rng, sysi, s):
         if parts[i].isdigit():
             parts[i] = b"0" + parts[i]
         out.append(b".".join(parts) + dash + pre + sep + tail)
-    elif sysi in (0, 1, 2, 4, 5, 8):
+    elif k == 5 and sysi in (0, 1, 2, 4, 5, 8):
         out.append(head + b"+" + rng.choice([b"x", b"1", b"build.2"]))
         out.append(head)
-    elif sysi == 6:
+    elif k == 5 and sysi == 6:
         if sep:
             out.append(head + b"+" + tail + rng.choice([b".1", b".x", b".0"]))
             if b"." in tail:
